@@ -4,7 +4,8 @@
  *
  * case:  "<ring> <strict> ; ops ; beh0 | beh1 | ..."   (see ocaml/drv_c14.ml)
  *   ring=0: io_uring_setup is made to fail with ENOSYS (no control ring).
- * ops:   O<sl>,<kind s|p|q|e|t>  U<src>,<dst>  X<sl>      descriptors (slots); t = TCP loopback pair,
+ * ops:   O<sl>,<kind s|p|q|e|t|n>[,<n>]  U<src>,<dst>  X<sl>   descriptors (slots), optionally moved onto
+ *                                          number n = 0, 1 or 2 with dup2; t = TCP loopback pair,
  *                                          n = kernel notification file (/proc/sys/kernel/hostname)
  *        K<sl> D<sl> H<sl> G<sl> L<sl>    peer writes / drain / peer closes / fill / unfill
  *        B<sl> W<sl>                      peer sends urgent (OOB) data (t) / peer shutdown(SHUT_WR) (s, t)
@@ -256,6 +257,15 @@ static void do_ops(char* ops, int in_cb) {
         }
         else { S[a].fd = eventfd(0, EFD_NONBLOCK); }
         S[a].f = f;
+        {
+          /* "O<sl>,<kind>,<n>": place the descriptor on the chosen number n (0, 1 or 2) with dup2,
+           * unless a slot already lives there; without <n> it keeps the first free number */
+          int want = -1; char kk;
+          if (sscanf(tok + 1, "%d,%c,%d", &a, &kk, &want) == 3 && want >= 0 && want <= 2 &&
+              S[a].fd > 2 && !fd_is_open(want)) {
+            if (dup2(S[a].fd, want) == want) { close(S[a].fd); S[a].fd = want; }
+          }
+        }
         printf("o%d=%d ", a, S[a].fd);
       } else printf("- ");
       break;
@@ -433,6 +443,15 @@ int main(void) {
     pid = fork();
     if (pid == 0) {
       alarm(30);
+      {
+        /* the output moves to a high number and 0, 1, 2 become /dev/null, so that the script may
+         * place its own descriptors on the numbers 0, 1 and 2 */
+        int hi = fcntl(1, F_DUPFD, 200), nul = open("/dev/null", O_RDWR);
+        stdout = fdopen(hi, "w");
+        setvbuf(stdout, NULL, _IOFBF, 1 << 16);
+        dup2(nul, 0); dup2(nul, 1); dup2(nul, 2);
+        if (nul > 2) close(nul);
+      }
       run_case(line);
       fflush(stdout);
       _exit(0);
